@@ -512,9 +512,26 @@ def r73(e, rep, g, where, name):
             if count(n) and not isinstance(label, tuple):
                 return min(3, x + 1)
             return x
+        # the forward counts merge paths; look for a FEASIBLE path with a
+        # wrong count (tagged results of helpers, tests that facts settle)
+        fx = e.facts(g)
+        nul = common.Nullness(g, e)
+
+        def step2(n, label, st0):
+            x, ns = st0
+            if n.kind == 'test' and label in ('T', 'F') and \
+                    fx.infeasible(n, label):
+                return None
+            ns = nul.step(n, label, ns)
+            if ns == 'infeasible':
+                return None
+            return (step(n, label, x), ns)
         p = dataflow.typestate_witness(
-            g, 0, step, lambda n, x: n is g.exit and x in badc)
+            g, (0, frozenset()), step2,
+            lambda n, st0: n is g.exit and st0[0] in badc)
         w = dataflow.render_path(p) if p else None
+        if p is None:
+            st = frozenset([1])
     tg = table_guarded(e, g)
     if st != frozenset([1]) and tg is not None:
         rep.unknown('R7.3', where, 'replies per normal path',
